@@ -77,6 +77,14 @@ def schemas():
          ("step", _defn(b1, F1, n) + [hyp, 0 <= k, k < n, F1(k) >= 0, z3.ForAll([i], z3.Implies(z3.And(0 <= i, i < k), b1(i) <= F1(k))), F1(k + 1) == F1(k) + b1(k)],
           z3.And(F1(k + 1) >= 0, z3.ForAll([i], z3.Implies(z3.And(0 <= i, i < k + 1), b1(i) <= F1(k + 1)))))],
     )
+    # ---- prefix: prefix sums of a non-negative family are monotone
+    a_ = z3.Int("pa")
+    hyp = z3.ForAll([j], z3.Implies(z3.And(0 <= j, j < n), b1(j) >= 0))
+    out["prefix"] = (
+        "(forall j<n. b(j)>=0) => forall a<=m<=n. F(a)<=F(m)",
+        [("base", _defn(b1, F1, n) + [hyp, n >= 0, 0 <= a_, a_ <= 0], F1(a_) <= F1(0)),
+         ("step", _defn(b1, F1, n) + [hyp, 0 <= k, k < n, 0 <= a_, a_ <= k + 1, z3.Implies(a_ <= k, F1(a_) <= F1(k)), F1(k + 1) == F1(k) + b1(k)], F1(a_) <= F1(k + 1))],
+    )
     # ---- add: the fold of a pointwise sum
     b3, F3 = _fold("3")
     hyp = z3.ForAll([j], z3.Implies(z3.And(0 <= j, j < n), b3(j) == b1(j) + b2(j)))
@@ -153,6 +161,12 @@ def instantiate(ctx, name, *args):
         n = f1.n
         hyp = z3.ForAll([j], z3.Implies(z3.And(0 <= j, j < n), f3.body_fn(j) == f1.body_fn(j) + f2.body_fn(j)))
         return z3.Implies(hyp, z3.ForAll([m], z3.Implies(z3.And(0 <= m, m <= n), f3.F(m) == f1.F(m) + f2.F(m))))
+    if name == "prefix":
+        (f1,) = args
+        n = f1.n
+        a_ = z3.Int("lpa")
+        hyp = z3.ForAll([j], z3.Implies(z3.And(0 <= j, j < n), f1.body_fn(j) >= 0))
+        return z3.Implies(hyp, z3.ForAll([a_, m], z3.Implies(z3.And(0 <= a_, a_ <= m, m <= n), f1.F(a_) <= f1.F(m))))
     if name == "member_at":
         f1, mt, it = args
         n = f1.n
